@@ -747,9 +747,9 @@ func (e StdEng) checkTwoFloatComplexTensors(a, b Tensor) (ad, bd DenseTensor, er
 
 // blasOperand returns t itself when BLAS can read its storage through a leading dimension (and a transpose flag),
 // or a contiguous copy when t is a view whose elements are not laid out that way: a slice with gaps, a stepped slice,
-// a slice of a lazily transposed tensor. Without this the products are computed from the wrong storage.
+// a slice of a lazily transposed tensor; the clone of such a view, which owns its storage but keeps the strides, too. Without this the products are computed from the wrong storage.
 func blasOperand(t DenseTensor) DenseTensor {
-	if d, ok := t.(*Dense); ok && d.viewOf != 0 && d.RequiresIterator() {
+	if d, ok := t.(*Dense); ok && (d.viewOf != 0 || !d.o.IsContiguous()) && d.RequiresIterator() {
 		if m, ok := d.Materialize().(DenseTensor); ok {
 			return m
 		}
